@@ -156,9 +156,15 @@ impl Exec {
         let mut delivered = Vec::new();
         let mut delivered_set = BTreeSet::new();
         for op in sc.ops.iter().take(from) {
-            if let Op::Deliver { b } = op {
-                if *b < w.blocks.len() && delivered_set.insert(*b) {
-                    delivered.push(*b);
+            let inner: Vec<&Op> = match op {
+                Op::FilterBuildRacing { inner, .. } => inner.iter().collect(),
+                other => vec![other],
+            };
+            for op in inner {
+                if let Op::Deliver { b } = op {
+                    if *b < w.blocks.len() && delivered_set.insert(*b) {
+                        delivered.push(*b);
+                    }
                 }
             }
         }
@@ -819,6 +825,38 @@ impl Exec {
                 self.res.faults.inc("filter_builder_pass");
                 self.ev("filter_build");
                 self.check_filters("after_filter_build");
+            }
+            Op::FilterBuildRacing { after, inner } => {
+                self.il.write_u64(10);
+                self.il.write_u64(*after as u64);
+                self.tick();
+                // the builder (its own thread in a node) has taken its snapshot; before it handles
+                // its (after+1)-th block the chain service gets to run `inner`
+                let me: *mut Exec = self;
+                let inner = inner.clone();
+                let after = *after;
+                let mut seen = 0usize;
+                let mut fired = false;
+                ckb_block_filter::filter::verif_set_between_blocks(Some(Box::new(move |_n| {
+                    if !fired && seen == after {
+                        fired = true;
+                        // SAFETY: the pass below runs on a BlockFilter value of its own; nothing else
+                        // touches the executor while the callback runs
+                        let ex = unsafe { &mut *me };
+                        ex.res.faults.inc("chain_moves_during_filter_pass");
+                        for op in inner.iter() {
+                            if matches!(op, Op::Deliver { .. } | Op::StepPreload | Op::StepVerify | Op::Drain) {
+                                ex.step(op);
+                            }
+                        }
+                    }
+                    seen += 1;
+                })));
+                let builder = ckb_block_filter::filter::BlockFilter::new(self.node.shared.clone());
+                builder.verif_build_filter_data();
+                ckb_block_filter::filter::verif_set_between_blocks(None);
+                self.res.faults.inc("filter_builder_pass");
+                self.ev("filter_build_racing");
             }
             Op::Restart | Op::Crash { .. } => unreachable!(),
         }
